@@ -406,9 +406,12 @@ class SimPipeline:
             e['sq'][key] = len(info[2].sub.inbox) if info is not None else 0
         self.rec.append(e)
 
+    hold_est = False         # while set, PUB->SUB links are not established (a slow SUB connection; requests still flow)
+
     def enabled(self):
         return [a for a in self.world.enabled()
-                if not (isinstance(a[1], simzmq.Task) and a[1].name.split('/')[0] in self.stalled)]
+                if not (isinstance(a[1], simzmq.Task) and a[1].name.split('/')[0] in self.stalled)
+                and not (self.hold_est and a[0] == 'est')]
 
     def task(self, f):
         return self.world.tasks.get(f)
@@ -427,6 +430,8 @@ class SimPipeline:
     def kill(self, f, keep=True):
         self.world.trace.append(('kill', f, bool(keep)))
         self.world.hard_kill(f, keep_inflight=keep)
+        if not self.topo.filters[f]['srcs'] and not any(e[0] == 'pub' and e[1].split('/')[0] == f for e in self.world.events):
+            self.oseq[f] = 0           # an origin killed before it ever published: it has not visibly produced anything
         self.filters.pop(f, None)
         self.stalled.discard(f)
         if self.rec is not None:
